@@ -17,6 +17,14 @@ import (
 
 func at[T any](xs []T, i int) T { return xs[i%len(xs)] }
 
+func seq(n int) []int {
+	out := make([]int, n)
+	for i := range out {
+		out[i] = i
+	}
+	return out
+}
+
 func drawClass(rt *rapid.T) sstcp.Class {
 	return sstcp.Class{
 		KeyLen:    at([]int{16, 32}, rapid.IntRange(0, 1).Draw(rt, "keylen")),
@@ -59,7 +67,7 @@ func drawCase(rt *rapid.T) casePlan {
 	p.SCoalesce = rapid.Bool().Draw(rt, "scoalesce")
 	p.CCoalesce = rapid.Bool().Draw(rt, "ccoalesce")
 	p.Op = opSpec{
-		Kind:      rapid.IntRange(0, opKinds-1).Draw(rt, "op"),
+		Kind:      at(append(seq(opKinds), opFeedReplay, opFeedReplay), rapid.IntRange(0, opKinds+1).Draw(rt, "op")),
 		Foreign:   rapid.Bool().Draw(rt, "foreign"),
 		RegionSel: rapid.IntRange(0, 15).Draw(rt, "region"),
 		OffMode:   rapid.IntRange(0, 7).Draw(rt, "offmode"),
@@ -80,7 +88,7 @@ var recTamper = ev.New("C02", "tamper-live",
 	"rapid: configuration class (key 16/32 x 0..3 iPSKs x prefix none/short/>64KiB x segmented header allowed or not x fallback or not) x target x initial "+
 		"payload length x application writes both ways x reader buffer/copy path x transport fragmentation x direction x tamper operator "+
 		"(bit flip, cut, drop/dup/swap of frames, frame or handshake-part or whole-stream splice from a second session under the same or a foreign key, "+
-		"insert/delete/overwrite bytes, appended or inserted garbage) x structural position (prefix, salt, identity headers, fixed header, variable header, "+
+		"insert/delete/overwrite bytes, appended or inserted garbage, feed-replay = after one damaged unit the reader is fed a byte-exact recording of this session's own stream from offset 0 / from its first data chunk / of another same-key session, and keeps reading (4 more Reads after the first error)) x structural position (prefix, salt, identity headers, fixed header, variable header, "+
 		"length chunk, payload chunk, response header, first response chunk; first/second/last bytes or anywhere). The real client and server run over the "+
 		"owned transport; the harness is a store-and-forward man in the middle. Oracle: reader output is a prefix of the genuine peer's bytes and stops "+
 		"before the first unit touched; a reader that consumed an altered byte (or a unit cut short) ends with a non-EOF error; an altered/foreign handshake "+
@@ -93,7 +101,9 @@ var recTamper = ev.New("C02", "tamper-live",
 		"c2s/region-prefix", "c2s/region-salt", "c2s/region-eih", "c2s/region-fixed", "c2s/region-var", "c2s/region-len", "c2s/region-payload",
 		"s2c/region-prefix", "s2c/region-salt", "s2c/region-resphdr", "s2c/region-payload0", "s2c/region-len", "s2c/region-payload",
 		"outcome-fallback", "fallback-after-successful-user-lookup", "fallback-payload-compared-after-later-handshakes", "outcome-rejected", "outcome-accepted", "outcome-relay-rejected", "outcome-error", "cut-inside-unit", "cut-at-unit-boundary",
-		"client-salt-mismatch-detected")
+		"client-salt-mismatch-detected",
+		"c2s/feed-replay", "s2c/feed-replay", "client-fed-replayed-response-after-auth-failure", "server-fed-replayed-request-after-auth-failure",
+		"client-fed-own-stream-from-offset-0", "client-fed-own-stream-from-first-data-chunk", "client-fed-other-session-same-key-from-offset-0")
 
 func record(rec *ev.Recorder, p *casePlan, r result) {
 	rec.Case(r.key, r.nontriv, r.labels...)
